@@ -37,6 +37,23 @@ fn logical(seed: u64, i: usize) -> Vec<Node> {
     let mut nodes: Vec<Node> = Vec::new();
     let types: Vec<_> = xml_types().into_iter().filter(|t| gen::BINARY_TYPES.contains(t)).collect();
     for k in 0..n {
+        // instances of a class the database does not know, carrying several SharedString / string /
+        // Ref properties at once: whatever order a hash map yields them in must not reach the output
+        if rng.gen_bool(0.35) {
+            let parent = if k == 0 || rng.gen_bool(0.3) { usize::MAX } else { rng.gen_range(0..k) };
+            let mut props = Vec::new();
+            let mut ref_targets = Vec::new();
+            for j in 0..rng.gen_range(2..7) {
+                let payload: Vec<u8> = (0..rng.gen_range(1..12)).map(|_| rng.gen()).collect();
+                props.push((format!("Shared{}", j), Variant::SharedString(rbx_dom_weak::types::SharedString::new(payload))));
+            }
+            for j in 0..rng.gen_range(0..3) {
+                props.push((format!("Text{}", j), Variant::String(format!("t{}", rng.gen::<u16>()))));
+                ref_targets.push((format!("Link{}", j), if rng.gen_bool(0.2) { None } else { Some(rng.gen_range(0..n)) }));
+            }
+            nodes.push(Node { class: "VerifDetUnknown".to_string(), name: format!("N{}", k), parent, props, ref_targets });
+            continue;
+        }
         let class = if rng.gen_bool(0.3) { "Folder".to_string() } else { known[rng.gen_range(0..known.len())].class.clone() };
         let parent = if k == 0 || rng.gen_bool(0.3) { usize::MAX } else { rng.gen_range(0..k) };
         let mut props = Vec::new();
@@ -142,18 +159,18 @@ pub fn run(seed: u64, count: usize, variant: u64, out: &mut dyn Write) {
         for (name, c) in [("bin_none", CompressionType::None), ("bin_lz4", CompressionType::Lz4), ("bin_zstd", CompressionType::Zstd)] {
             outputs.push((name.to_string(), write_bin(&dom, &tops, c)));
         }
-        outputs.push(("xml".to_string(), write_xml(&dom, &tops, "IgnoreUnknown")));
+        outputs.push(("xml".to_string(), write_xml(&dom, &tops, "WriteUnknown")));
         for (name, r) in outputs {
             match r {
                 Ok(data) => {
                     ev["out"][&name] = json!(digest(&data));
                     // load/save fixed point after the first save
                     let is_xml = name == "xml";
-                    let load = |d: &[u8]| if is_xml { read_xml(d, "IgnoreUnknown") } else { read_bin(d) };
+                    let load = |d: &[u8]| if is_xml { read_xml(d, "ReadUnknown") } else { read_bin(d) };
                     let save = |d: &WeakDom| {
                         let kids = d.root().children().to_vec();
                         if is_xml {
-                            write_xml(d, &kids, "IgnoreUnknown")
+                            write_xml(d, &kids, "WriteUnknown")
                         } else {
                             write_bin(d, &kids, match name.as_str() { "bin_lz4" => CompressionType::Lz4, "bin_zstd" => CompressionType::Zstd, _ => CompressionType::None })
                         }
